@@ -171,7 +171,7 @@ impl Tape {
 
 #[derive(Default, Clone, Debug)]
 pub struct SimStats {
-  pub eintr: u64, pub spurious_timeout: u64, pub spurious_ready: u64, pub latency: u64, pub oversleep: u64, pub io_error: u64, pub os_enodev: u64, pub stalled: u64, pub hangups_cross_checked: u64,
+  pub eintr: u64, pub spurious_timeout: u64, pub spurious_ready: u64, pub latency: u64, pub stalls_in_call: u64, pub oversleep: u64, pub io_error: u64, pub os_enodev: u64, pub stalled: u64, pub hangups_cross_checked: u64,
   pub order_flipped: u64, pub both_devices_ready: u64, pub kbd_unplugged: u64, pub tab_unplugged: u64, pub arrival_during_drain: u64,
   pub backoff_sleeps: u64, pub multi_event_wakeups: u64, pub max_events_one_wakeup: u64, pub timer_ticks: u64, pub trace_cap_hit: u64,
   pub os_write_fault: [u64; 3], pub os_read_fault: u64, pub real_polls_compared: u64,
@@ -325,6 +325,10 @@ impl<'a> Sim<'a> {
   fn latency(&mut self) {
     if self.tape.fault(self.cfg.p_latency) {
       let d = self.tape.below(3000);
+      // one slow call in sixteen is a stall (the process was stopped, the consumer did not drain,
+      // memory was short): 20 ms to 2 s pass inside one call, several periods of a fast repeat timer
+      // and any number of arrivals
+      let d = if d % 16 == 1 { self.stats.stalls_in_call += 1; 20_000 + (d * 661) % 2_000_000 } else { d };
       let to = self.now() + d;
       self.stats.latency += 1;
       self.advance(to);
